@@ -68,8 +68,8 @@ let run d23 line =
   let (d, argv, libs) = parse_line line in
   (* the premises of the theorems about run_project, evaluated on every
      project whatever the outcome of the run *)
-  let prem = Printf.sprintf "\"canon_idempotent\": %b, \"depth_ok\": %b"
-      (Includes.canon_idempotent_b d) (Includes.depth_ok_b d argv) in
+  let prem = Printf.sprintf "\"canon_idempotent\": %b, \"depth_ok\": %b, \"dirs_revisited\": %b"
+      (Includes.canon_idempotent_b d) (Includes.depth_ok_b d argv) (Includes.dirs_revisited_b d argv libs) in
   match Includes.run_project d23 d argv libs with
   | Ok s ->
     Printf.sprintf "{\"status\": \"ok\", \"read\": [%s], \"files\": [%s], \"reports\": [%s], %s}"
